@@ -218,12 +218,8 @@ Theorem C13_stale_refuted :
 Proof. exact stale_refuted. Qed.
 Print Assumptions C13_stale_refuted.
 
-Definition C13_full (c : fixes) : Prop := forall bs n, walk_safe (walk c n bs).
 Theorem C13_full_refuted : ~ C13_full legacy.
-Proof.
-  intros H. specialize (H wit_oobw 5%nat). vm_compute in H. inversion H as [|? ? ? H1]; subst.
-  repeat match goal with H : Forall _ (_ :: _) |- _ => inversion H; subst; clear H end; assumption.
-Qed.
+Proof. exact full_refuted. Qed.
 Print Assumptions C13_full_refuted.
 
 (* every one of these files is rejected with an error code by the repaired code *)
